@@ -827,4 +827,7 @@ func TestVerifC34(t *testing.T) {
 
 	// notifier variant (c34_notify_test.go): the same workloads with registered status channels
 	c34NotifyGroups(r)
+
+	// PopWithTimer's polling fallback against its timer (c34_timerpop_test.go)
+	c34TimerPopGroups(r)
 }
